@@ -269,6 +269,103 @@ def corrupted_containers(report, tier):
 corrupted_containers.seen = {}
 
 
+def malformed_text_containers(report):
+    """
+    Delimited and fixed text that its reader must refuse, with the damage in the first line, in a later line and at the
+    end, as str stream, as file (API) and through the command line; the same damage in a CID stored as CSV text.
+    Outcome: rows or a data error (API), exit code 0 or 1 (command line), a CID or a cutplace error -- never anything else.
+    """
+    import cutplace
+    from cutplace import applications, errors, interface
+    good = "1,a\r\n"
+    damages = {
+        "stray character after a closing quote": '1,"jo"nes\r\n',
+        "unterminated quote": '1,"jones\r\n',
+        "unterminated quote at the very end": '1,"jones',
+        "NUL character": "1,a\x00b\r\n",
+        "lone carriage return inside an unquoted cell": "1,a\rb\r\n",
+        "quote in the middle of an unquoted cell": '1,a"b"\r\n',
+    }
+    cid_rows = [["D", "Format", "delimited"], ["D", "Encoding", "utf-8"], ["F", "n", "", "", "", "Integer", "0...9"], ["F", "t", "", "X"]]
+    fixed_rows = [["D", "Format", "fixed"], ["D", "Encoding", "utf-8"], ["D", "Line delimiter", "lf"], ["F", "n", "", "", "1", "Integer", "0...9"],
+                  ["F", "t", "", "X", "3"]]
+    fixed_damages = {"record that ends too early": "1ab", "wrong line delimiter": "1abc\r1abc\r", "missing line delimiter": "1abc1abc\n",
+                     "surplus characters": "1abcd\n"}
+    folder = core.workdir("c10text")
+    try:
+        cases = []
+        for label, bad in sorted(damages.items()):
+            for position, text in (("first line", bad + good), ("second line", good + bad), ("only line", bad),
+                                   ("last of three", good + good + bad)):
+                cases.append(("delimited", cid_rows, "%s (%s)" % (label, position), text.encode("utf-8")))
+        for position, data in (("first line", b"1,\xff\xfe\r\n1,a\r\n"), ("second line", b"1,a\r\n1,\xff\r\n"), ("far down", b"1,a\r\n" * 3000 + b"\xc3\r\n")):
+            cases.append(("delimited", cid_rows, "bytes that are not UTF-8 (%s)" % position, data))
+        for label, text in sorted(fixed_damages.items()):
+            for position, whole in (("first record", text), ("second record", "1abc\n" + text)):
+                cases.append(("fixed", fixed_rows, "%s (%s)" % (label, position), whole.encode("utf-8")))
+        cases.append(("fixed", fixed_rows, "bytes that are not UTF-8", b"1a\xffc\n"))
+        cid_path = os.path.join(folder, "cid.csv")
+        data_path = os.path.join(folder, "data.txt")
+        for fmt, rows, label, data in cases:
+            cid = cutplace.Cid()
+            cid.read("cid", rows)
+            with open(cid_path, "w", newline="", encoding="utf-8") as cid_file:
+                csv.writer(cid_file).writerows(rows)
+            with open(data_path, "wb") as data_file:
+                data_file.write(data)
+            attempts = [("rows(path, on_error=%s)" % mode, lambda mode=mode: list(cutplace.rows(cid, data_path, on_error=mode)))
+                        for mode in ("raise", "yield", "continue")]
+            attempts.append(("validate(path)", lambda: cutplace.validate(cid, data_path)))
+            try:
+                as_text = data.decode("utf-8")
+                attempts.append(("rows(stream)", lambda: list(cutplace.rows(cid, io.StringIO(as_text, newline=""), on_error="yield"))))
+            except UnicodeDecodeError:
+                pass
+            for name, attempt in attempts:
+                report.replayed += 1
+                try:
+                    attempt()
+                    outcome = "no error"
+                except errors.DataError:
+                    outcome = "DataError"
+                except Exception as error:  # noqa
+                    outcome = "%s: %s" % (type(error).__name__, str(error)[:150])
+                if outcome not in ("DataError", "no error"):  # (what a reader tolerates is not C10's business)
+                    report.violation("c10", {"container": fmt, "damage": label}, "rows or DataError", outcome,
+                                     "%s data with %s: %s lets escape %s" % (fmt, label, name, outcome))
+                    break
+            report.replayed += 1
+            try:
+                code = applications.main(["cutplace", cid_path, data_path])
+            except SystemExit as error:
+                code = "SystemExit(%s)" % error.code
+            except Exception as error:  # noqa
+                code = "%s: %s" % (type(error).__name__, str(error)[:150])
+            if code not in (0, 1):
+                report.violation("c10", {"container": fmt, "damage": label, "cli": True}, "0 or 1", code,
+                                 "%s data with %s: the command line answers %r" % (fmt, label, code))
+        # the same damage in a CID stored as delimited text
+        for label, bad in sorted(damages.items()):
+            for position, text in (("first line", bad + "D,Format,delimited\r\nF,n\r\n"), ("later line", "D,Format,delimited\r\nF,n\r\n" + bad)):
+                report.replayed += 2
+                with open(cid_path, "w", newline="", encoding="utf-8") as cid_file:
+                    cid_file.write(text)
+                for name, attempt in (("create_cid_from_string", lambda: interface.create_cid_from_string(text)),
+                                      ("Cid(path)", lambda: interface.Cid(cid_path))):
+                    try:
+                        attempt()
+                        outcome = "accepted"
+                    except errors.CutplaceError:
+                        outcome = "cutplace error"
+                    except Exception as error:  # noqa
+                        outcome = "%s: %s" % (type(error).__name__, str(error)[:150])
+                    if outcome not in ("cutplace error", "accepted"):
+                        report.violation("c10", {"container": "cid", "damage": label}, "cutplace error", outcome,
+                                         "CID stored as text with %s (%s): %s gives %s" % (label, position, name, outcome))
+    finally:
+        core.cleanup(folder)
+
+
 def native_excel_cells(report):
     """
     Cells a workbook can hold that have no text of their own: date serials outside the calendar (negative, the ambiguous
@@ -379,6 +476,7 @@ def run(tier, report):
         core.cleanup(folder)
     corrupted_containers(report, tier)
     native_excel_cells(report)
+    malformed_text_containers(report)
     report.notes["hostile_spreadsheet_cells"] = "%d hostile data cells were also stored in real .xlsx / .ods files and read through " \
                                                "cutplace.rows (both modes) and the command line" % len(
         [1 for vec, _ in jobs if vec["fmt"] in ("excel", "ods") and any(t["where"] == "data" for t in vec["targets"])])
